@@ -1,7 +1,7 @@
 (* C02 -- what every traced operation of /repo's tensor algebra has to compute, in index notation
    (definitions of TensorIndex.v), written from the mathematical meaning of the operation and not from the code.
    spec_<op> N <full inputs...> : full result.  The dimension N only matters for the storage maps. *)
-From Coq Require Import Reals List Lra Nsatz.
+From Coq Require Import Reals List Lra.
 From VLib Require Import RealExtra.
 Require Import TensorIndex.
 Import ListNotations.
@@ -52,8 +52,8 @@ Definition spec_A_convert (N : nat) (c : M4) : M4 := symR c.
 Definition spec_A_getComponent (N : nat) (a : M4) : M4 := fun i j k l => (a i j k l + a j i l k) / 2.
 (* d(s.s)/ds for symmetric s and symmetric variations *)
 Definition spec_A_dsquare (N : nat) (s : M2) : M4 := symR (add4 (tpld4 s) (tprd4 s)).
-(* d sym(a.b)/da for symmetric variations *)
-Definition spec_A_stpd (N : nat) (b : M2) : M4 := symL (symR (tpld4 b)).
+(* d(a.b + b.a)/da for symmetric variations (documented meaning of stpd) *)
+Definition spec_A_stpd (N : nat) (b : M2) : M4 := symR (add4 (tpld4 b) (tprd4 b)).
 Definition d2det4 (a : M2) : M4 :=
   fun i j k l => sum3 (fun m => sum3 (fun n => eps i k m * eps j l n * a m n)).
 Definition spec_A_d2det (N : nat) (s : M2) : M4 := symL (symR (d2det4 s)).
@@ -94,17 +94,3 @@ Definition spec_C_convertToT2toST2 (N : nat) (b : M4) : M4 := symL b.
 Definition spec_D_tpld (N : nat) (b : M2) : M4 := symR (tpld4 b).
 Definition spec_D_tprd (N : nat) (a : M2) : M4 := symR (tprd4 a).
 
-(* ---- the single tactic that closes every generated obligation  traced = flat (spec (full inputs)) *)
-Ltac spec_red := cbv -[Rplus Rmult Rminus Ropp Rdiv Rinv IZR sqrt].
-Ltac spec_red_in H := cbv -[Rplus Rmult Rminus Ropp Rdiv Rinv IZR sqrt] in H.
-Ltac nonzero :=
-  repeat split;
-  first [ apply sqrt2_neq0 | apply sqrt3_neq0 | assumption | lra
-        | match goal with H : _ <> 0 |- _ <> 0 => let E := fresh in intro E; apply H; timeout 60 nsatz end ].
-Ltac comp_eq :=
-  first [ reflexivity | timeout 120 ring
-        | timeout 300 (field_simplify_eq; [ ring [sqrt2_sq sqrt3_sq sqrt6_sq] | nonzero .. ]) ].
-Ltac prove_op f :=
-  intros; unfold f; spec_red;
-  repeat match goal with H : _ <> _ |- _ => progress spec_red_in H end;
-  repeat (apply f_equal2; [ comp_eq | ]); reflexivity.
